@@ -465,7 +465,10 @@ public:
     if (observed_)
     {
       vf::count("finding-" + key(cls));
-      vf::observation(key(cls) + ": " + detail + " (observed only, not judged)");
+      // stable text (no object numbers), so that equal observations are merged
+      std::string::size_type const cut = detail.find(": object #");
+      vf::observation(key(cls) + ": " + (cut == std::string::npos ? std::string(kind) : detail.substr(0, cut)) +
+                      " (observed only, not judged)");
     }
     else
       vf::violation(key(cls), kind, detail);
